@@ -311,12 +311,22 @@ class NpProxy(types.ModuleType):
         real = getattr(_np, name)
 
         def f(self, x, *a, **k):
+            out = k.get('out', a[0] if a else None)
+            if isinstance(out, tuple):
+                out = out[0]
             if isinstance(x, SYM):
                 return getattr(_coerce(x), meth)()
             if isinstance(x, _np.ndarray) and isobj(x):
-                return _vec(lambda e: getattr(_coerce(e), meth)(), x)
+                r = _vec(lambda e: getattr(_coerce(e), meth)(), x)
+                if out is not None:  # in-place form, e.g. np.conjugate(t, out=t)
+                    out[...] = r
+                    return out
+                return r
             if isinstance(x, (list, tuple)) and _deep_sym(x):
                 return _vec(lambda e: getattr(_coerce(e), meth)(), _np.array(x, dtype=object))
+            if out is not None and isinstance(out, _np.ndarray) and isobj(out):
+                out[...] = to_obj(real(x))
+                return out
             return real(x, *a, **k)
 
         f.__name__ = name
